@@ -27,6 +27,40 @@ package compiler
 //@   loop 1 invariant jumpOpcodes != nil && forall(k, byte, has(jumpOpcodes, k) == (k == byte(vm.OpJump) || k == byte(vm.OpJumpIfFalse) || k == byte(vm.OpJumpIfTrue)) && (has(jumpOpcodes, k) ==> jumpOpcodes[k]))
 //@   loop 1 invariant 0 <= i && (i < len(c.code) ==> topLevel(old(row(c.code)), old(off(c.code)), i)) && base(c.code) == old(base(c.code)) && off(c.code) == old(off(c.code)) && len(c.code) == old(len(c.code)) && forall(j, i, len(c.code), c.code[j] == old(c.code[j]))
 
+// ---- constant pool (C02): the index addConstant returns holds the value it was given - same kind, same payload (an int 2
+// ---- and a float 2.0 are different constants) - and constants already in the pool keep their places
+//@ spec func sameConst(a vm.Value, b vm.Value) bool = (typeis(a, vm.IntValue) && typeis(b, vm.IntValue) && a.(vm.IntValue).Val == b.(vm.IntValue).Val) || (typeis(a, vm.FloatValue) && typeis(b, vm.FloatValue) && feq(a.(vm.FloatValue).Val, b.(vm.FloatValue).Val)) || (typeis(a, vm.BoolValue) && typeis(b, vm.BoolValue) && a.(vm.BoolValue).Val == b.(vm.BoolValue).Val) || (typeis(a, vm.StringValue) && typeis(b, vm.StringValue) && a.(vm.StringValue).Val == b.(vm.StringValue).Val) || (typeis(a, vm.NullValue) && typeis(b, vm.NullValue))
+//@ func valuesEqual
+//@   modifies nothing
+//@   ensures result == sameConst(a, b)
+//@ func (*Compiler).addConstant
+//@   requires c != nil
+//@   modifies c.constants
+//@   ensures 0 <= result && result < len(c.constants) && (sameConst(c.constants[result], val) || c.constants[result] == val)
+//@   ensures len(c.constants) >= old(len(c.constants)) && forall(j, 0, old(len(c.constants)), c.constants[j] == old(c.constants[j]))
+//@   loop 1 invariant 0 <= rangeidx
+
+// ---- forward jumps (C02): patching rewrites the four operand bytes of the instruction at `offset` and nothing else; a loop
+// ---- context starts with no recorded break and with a break list of its own (no backing array: lists of nested loops
+// ---- cannot share storage); leaving a loop patches the breaks recorded for that loop - and only those - to the loop's end
+//@ func (*Compiler).patchJump
+//@   requires c != nil
+//@   mathint
+//@   modifies elems(c.code)
+//@   ensures len(c.code) == old(len(c.code)) && forall(j, 0, len(c.code), j < offset + 1 || j > offset + 4 ==> c.code[j] == old(c.code[j]))
+//@   ensures 0 <= offset && offset + 5 <= len(c.code) ==> le32(row(c.code), off(c.code), offset + 1) == target
+//@ func (*Compiler).pushLoop
+//@   requires c != nil
+//@   modifies c.loopStack, elems(c.loopStack)
+//@   ensures len(c.loopStack) == old(len(c.loopStack)) + 1 && c.loopStack[len(c.loopStack) - 1].continueTarget == continueTarget && len(c.loopStack[len(c.loopStack) - 1].breakJumps) == 0 && cap(c.loopStack[len(c.loopStack) - 1].breakJumps) == 0
+//@   ensures forall(j, 0, old(len(c.loopStack)), c.loopStack[j] == old(c.loopStack[j]))
+//@ func (*Compiler).popLoop
+//@   requires c != nil
+//@   mathint
+//@   ensures old(len(c.loopStack)) > 0 ==> len(c.loopStack) == old(len(c.loopStack)) - 1
+//@   ensures old(len(c.loopStack)) == 0 ==> len(c.loopStack) == 0
+//@   callpre (*compiler.Compiler).patchJump arg2 == endOffset && old(len(c.loopStack)) > 0 && exists(k, 0, len(old(c.loopStack[len(c.loopStack) - 1].breakJumps)), arg1 == old(c.loopStack[len(c.loopStack) - 1].breakJumps)[k])
+
 // ---- constant folding (C03): a folded operation must be the literal the language oracle (contracts/lang.spec)
 // ---- assigns to the operation on those operands - the same oracle the VM's operators are verified against
 //@ spec func kindL(x ast.Literal) int = ite(typeis(x, ast.NullLiteral), 0, ite(typeis(x, ast.IntLiteral), 1, ite(typeis(x, ast.FloatLiteral), 2, ite(typeis(x, ast.StringLiteral), 3, ite(typeis(x, ast.BoolLiteral), 4, 7)))))
